@@ -204,6 +204,12 @@ pub struct Check {
     pub assumptions: Vec<String>,
     pub extra: Vec<(String, Js)>,
     pub replay_only: Option<PathBuf>,
+    /// write evidence here instead of evidence/<id>.json (child processes)
+    pub evidence_path: Option<PathBuf>,
+    /// write the case in flight per shard into this directory (abort attribution)
+    pub inflight_dir: Option<PathBuf>,
+    /// do not demand >= 2 distinct non-trivial cases (child processes report to a parent)
+    pub is_child: bool,
 }
 
 pub struct CampaignCfg<'a> {
@@ -262,6 +268,9 @@ impl Check {
             assumptions: vec![],
             extra: vec![],
             replay_only: None,
+            evidence_path: std::env::var("VERIF_EVIDENCE_PATH").ok().map(PathBuf::from),
+            inflight_dir: std::env::var("VERIF_INFLIGHT_DIR").ok().map(PathBuf::from),
+            is_child: std::env::var("VERIF_CHILD").is_ok(),
         }
     }
 
@@ -307,6 +316,8 @@ impl Check {
                 let total_evals = &total_evals;
                 let seed = derive_seed(self.seed, &format!("{}/{}", self.property, cfg.name), shard as u64);
                 let name = cfg.name.to_string();
+                let prop = self.property.clone();
+                let inflight = self.inflight_dir.as_ref().map(|d| d.join(format!("{}.shard{shard}.json", cfg.name)));
                 let (min_len, max_len, max_shrink) = (cfg.min_len, cfg.max_len, cfg.max_shrink_iters);
                 std::thread::Builder::new()
                     .name(format!("shard{shard}"))
@@ -328,6 +339,9 @@ impl Check {
                             if stop.load(Ordering::Relaxed) && !failed.get() {
                                 // another shard already failed: finish quickly
                                 return Ok(());
+                            }
+                            if let Some(path) = &inflight {
+                                write_inflight(path, &prop, &name, &choices);
                             }
                             let (log, r) = run_case(case, &choices, false);
                             let r = match r {
@@ -645,7 +659,7 @@ impl Check {
         if self.replay_only.is_none() {
             let dir = verif_root().join("evidence");
             let _ = std::fs::create_dir_all(&dir);
-            let path = dir.join(format!("{}.json", self.property));
+            let path = self.evidence_path.clone().unwrap_or_else(|| dir.join(format!("{}.json", self.property)));
             if let Err(e) = std::fs::write(&path, ev.render()) {
                 infra(&format!("cannot write evidence {}: {e}", path.display()));
             }
@@ -663,7 +677,7 @@ impl Check {
         if !self.violations.is_empty() {
             std::process::exit(1);
         }
-        if self.replay_only.is_none() && self.distinct.len() < 2 {
+        if self.replay_only.is_none() && !self.is_child && self.distinct.len() < 2 {
             infra("fewer than 2 distinct non-trivial cases: generator needs fixing");
         }
         std::process::exit(0);
@@ -680,6 +694,23 @@ impl Check {
             infra(&format!("label {label} is {:.2}% of {of} (< {pct}%): generator needs fixing", n / d * 100.0));
         }
     }
+}
+
+pub fn write_inflight(path: &Path, property: &str, campaign: &str, choices: &[u64]) {
+    let mut s = String::with_capacity(64 + choices.len() * 21);
+    s.push_str("{\"property\":\"");
+    s.push_str(property);
+    s.push_str("\",\"campaign\":\"");
+    s.push_str(campaign);
+    s.push_str("\",\"key\":\"in-flight\",\"msg\":\"case in flight when the process died\",\"choices\":[");
+    for (i, c) in choices.iter().enumerate() {
+        if i > 0 {
+            s.push(',');
+        }
+        s.push_str(&c.to_string());
+    }
+    s.push_str("]}");
+    let _ = std::fs::write(path, s);
 }
 
 pub fn key_matches(pattern: &str, key: &str) -> bool {
